@@ -83,6 +83,8 @@ static int vs_nobj, vs_nthreads;
 static volatile int vs_active;
 static __thread int vs_me = -1;
 static uint64_t vs_clock_ns = 1700000000ull * 1000000000ull; /* virtual clock, shared by all clock ids */
+static uint64_t vs_spin_clock_step_ns; /* opt-in: when only busy-waiting threads can run, each full round of their spinning lets this much
+                                          virtual time pass (a busy-wait that polls the clock, e.g. join-all with a timeout) */
 static struct vs_result *vs_res;
 static const uint8_t *vs_prefix;
 static int vs_prefix_len;
@@ -230,6 +232,7 @@ static void vs_schedule(int me) {
                 if (vs_th[t].spin_yielded && vs_enabled(t)) any_spin = true;
             if (any_spin) {
                 for (int t = 0; t < vs_nthreads; ++t) vs_th[t].spin_yielded = 0, vs_th[t].spin_count = 0;
+                vs_clock_ns += vs_spin_clock_step_ns;
                 continue;
             }
         }
